@@ -17,6 +17,7 @@ import (
 )
 
 type Oblig struct {
+	Full bool // discharge with the full solver budget (contract clauses, also while a registry is being written)
 	Name    string
 	Kind    string
 	Unit    string
@@ -55,6 +56,7 @@ func (s *State) clone() *State {
 }
 
 type VC struct {
+	quiet bool // suppress obligations while evaluating an expression for its value only
 	prog    *Program
 	fi      *FuncInfo
 	pkg     *packages.Package
@@ -160,6 +162,11 @@ func (vc *VC) oblName(kind string, n ast.Node, anchor string) string {
 }
 
 func (vc *VC) oblige(st *State, kind string, n ast.Node, anchor string, goal *Term) *Oblig {
+	if vc.quiet {
+		// evaluating an expression only for its value (candidate loop variants): its safety obligations are those of
+		// the real occurrence of the expression and are not generated a second time
+		return &Oblig{Kind: kind, Unit: vc.unit, Goal: goal, Res: &SolveResult{Status: "unsat", Solver: "simplifier"}, vc: vc}
+	}
 	if goal.IsTrue() {
 		// trivially discharged by the simplifier; still count it
 		o := &Oblig{Name: vc.oblName(kind, n, anchor), Kind: kind, Unit: vc.unit, NLog: len(vc.log), PC: st.pc, Goal: goal, vc: vc}
@@ -210,6 +217,9 @@ func (vc *VC) oblige(st *State, kind string, n ast.Node, anchor string, goal *Te
 }
 
 func (vc *VC) cover(st *State, n ast.Node, anchor string) *Oblig {
+	if vc.quiet {
+		return &Oblig{Kind: "cover", Cover: true, vc: vc}
+	}
 	o := &Oblig{Name: vc.oblName("cover", n, anchor), Kind: "cover", Unit: vc.unit, NLog: len(vc.log), PC: st.pc, Goal: nil, Cover: true, vc: vc}
 	vc.obls = append(vc.obls, o)
 	return o
@@ -241,7 +251,67 @@ func hasQuantRec(t *Term) bool {
 	return r
 }
 
-func (o *Oblig) query() *Query {
+func (o *Oblig) query() *Query { return o.queryPC(o.PC) }
+
+// weakPC: the top-level atomic conjuncts of the path condition (disjunctions, conditionals, implications and quantified
+// conjuncts dropped). Proving the goal under this weaker hypothesis is sound, and for goals that depend on a few
+// dominating facts only (loop variants) it shrinks the query from the whole loop body to a handful of literals.
+func weakPC(pc *Term) *Term {
+	// facts(t): atomic facts implied by t - union over a conjunction, intersection over a disjunction
+	var facts func(t *Term) map[int]*Term
+	facts = func(t *Term) map[int]*Term {
+		switch t.Op {
+		case "and":
+			out := map[int]*Term{}
+			for _, a := range t.Args {
+				for k, v := range facts(a) {
+					out[k] = v
+				}
+			}
+			return out
+		case "or":
+			var out map[int]*Term
+			for _, a := range t.Args {
+				fa := facts(a)
+				if out == nil {
+					out = fa
+					continue
+				}
+				for k := range out {
+					if _, ok := fa[k]; !ok {
+						delete(out, k)
+					}
+				}
+			}
+			if out == nil {
+				out = map[int]*Term{}
+			}
+			return out
+		case "ite", "=>", "forall", "exists":
+			return map[int]*Term{}
+		}
+		if t.Op == "not" && len(t.Args) == 1 {
+			switch t.Args[0].Op {
+			case "and", "or", "ite", "=>", "forall", "exists":
+				return map[int]*Term{}
+			}
+		}
+		return map[int]*Term{t.id: t}
+	}
+	fs := facts(pc)
+	ids := make([]int, 0, len(fs))
+	for k := range fs {
+		ids = append(ids, k)
+	}
+	sort.Ints(ids)
+	var out []*Term
+	for _, k := range ids {
+		out = append(out, fs[k])
+	}
+	return And(out...)
+}
+
+func (o *Oblig) queryPC(pc *Term) *Query {
 	q := &Query{Cover: o.Cover}
 	var cands []*Term
 	for _, a := range o.vc.log[:o.NLog] {
@@ -281,7 +351,7 @@ func (o *Oblig) query() *Query {
 			}
 		}
 	}
-	push(o.PC)
+	push(pc)
 	if o.Goal != nil {
 		push(o.Goal)
 	}
@@ -306,7 +376,7 @@ func (o *Oblig) query() *Query {
 			q.Assumes = append(q.Assumes, a)
 		}
 	}
-	q.Assumes = append(q.Assumes, o.PC)
+	q.Assumes = append(q.Assumes, pc)
 	q.Goal = o.Goal
 	return q
 }
